@@ -323,6 +323,9 @@ pub struct CliPlan {
     /// name of the search directory (may be hidden, e.g. ".specs")
     #[serde(default)]
     pub search_name: String,
+    /// an additional `-m` path that is not a readable module: "missing" | "dir" | "" (none)
+    #[serde(default)]
+    pub bad_m: String,
     /// how -d names it: "abs" | "dot" (cwd = the directory, `-d .`) | "rel" (`-d ../<name>`)
     #[serde(default)]
     pub dir_arg: String,
@@ -533,7 +536,7 @@ impl Scenario for C20Cli {
             3 | 4 => CliOut::Dir,
             _ => CliOut::File,
         };
-        let p = CliPlan { seed, set, malformed, ts: w.chance(1, 3), tree, symlinks, dash_m, use_dir, out, dest_exists: w.chance(1, 2), dest_long: w.chance(1, 2), search_name: w.pick(&["specs", "specs", ".specs", "my specs"]).to_string(), dir_arg: w.pick(&["abs", "abs", "dot", "rel"]).to_string(), faults: vec![], entropy: root.fork("hashkeys").next_u64(), phase: "fault-free".into() };
+        let p = CliPlan { seed, set, malformed, ts: w.chance(1, 3), tree, symlinks, dash_m, use_dir, out, dest_exists: w.chance(1, 2), dest_long: w.chance(1, 2), search_name: w.pick(&["specs", "specs", ".specs", "my specs"]).to_string(), dir_arg: w.pick(&["abs", "abs", "dot", "rel"]).to_string(), bad_m: w.pick(&["", "", "", "", "", "missing", "dir"]).to_string(), faults: vec![], entropy: root.fork("hashkeys").next_u64(), phase: "fault-free".into() };
         serde_json::to_value(&p).unwrap()
     }
 
@@ -594,6 +597,17 @@ impl Scenario for C20Cli {
             for t in &p.dash_m {
                 args.push(format!("{search}/{}", p.tree[*t].rel));
             }
+        }
+        if !p.bad_m.is_empty() {
+            // one more -m path, which the library cannot read: the whole run must fail
+            let bad = format!("{search}/{}", if p.bad_m == "dir" { "a-directory.asn" } else { "no-such-file.asn" });
+            if p.bad_m == "dir" {
+                std::fs::create_dir_all(&bad).unwrap();
+            }
+            if p.dash_m.is_empty() {
+                args.push("-m".into());
+            }
+            args.push(bad);
         }
         if p.ts {
             args.push("-b".into());
@@ -700,7 +714,7 @@ impl Scenario for C20Cli {
             }
         } else {
             let r0 = reference.as_ref().unwrap();
-            let expect_ok = r0.ok && !hard_src && !hard_dst;
+            let expect_ok = r0.ok && !hard_src && !hard_dst && p.bad_m.is_empty();
             if ok != expect_ok {
                 out.violate(
                     "O5-exit-status",
